@@ -1090,6 +1090,9 @@ class Environments(collections.abc.Sequence, Sequence[Environment]):
                 if is_equal and not self_envs:
                     return path_envs
                 if not is_equal and overwrite:
+                    #the file is written anew so every environment has to be written,
+                    #including the ones that were matched before the mismatch was found
+                    self_envs = list(self)
                     Path(path).unlink()
                 if not is_equal and not overwrite:
                     raise CobaException("The Environments save file does not match the actual Environments and overwite is False.")
